@@ -72,18 +72,24 @@ Definition spec_jumpdest_tbl (c : code) : Z -> bool :=
   (* [if], not [&&]: the VM is call-by-value and Z.to_nat of a 200-bit destination must never be built *)
   fun d => if (0 <=? d) && (d <? n) then (cnth c d =? 91) && nth (Z.to_nat d) st false else false.
 
-(* the Yellow-Paper machine on the same program: compared with the observed run on the gas-free projection *)
+(* the Yellow-Paper machine on the same program: compared with the observed run on the gas-free projection.
+   Its word operations are evaluated through [fast_op] (= impl_op = spec_op on words, Fast.fast_op_eq and
+   Proofs.op_correct): spec_op's Z.pow / 2^shift cannot be evaluated for 256-bit exponents. *)
 Definition defined_of (P : params) (w : Z) : bool := r_def (znth (p_tab P) w no_row).
 Definition ycheck (P : params) (E : env) (c input : list Z) (fuel : nat) (p : pobs) : bool :=
-  match yrun (defined_of P) khash E c input fuel y0, p with
-  | YOutside _, _ => true                       (* GAS or an instruction outside the gas-free set *)
-  | _, PFail 4 | _, PFail 5 => true             (* out of gas / gas overflow: projected away *)
-  | YStop, PStop _ => true
-  | YStop, PRet d _ => zlist_eqb [] (zbytes d)
-  | YReturn o, PRet d _ => zlist_eqb o (zbytes d)
-  | YRevert o, PRev d _ => zlist_eqb o (zbytes d)
-  | YExc, PFail _ => true
-  | _, _ => false
+  match p with
+  | PFail 4 | PFail 5 => true      (* out of gas / gas overflow: projected away; the gas-free machine is not even run
+                                      (it would go on, e.g. into a RETURN of 2^64 bytes) *)
+  | _ =>
+    match yrun fast_op (defined_of P) khash E c input fuel y0, p with
+    | YOutside _, _ => true                       (* GAS or an instruction outside the gas-free set *)
+    | YStop, PStop _ => true
+    | YStop, PRet d _ => zlist_eqb [] (zbytes d)
+    | YReturn o, PRet d _ => zlist_eqb o (zbytes d)
+    | YRevert o, PRev d _ => zlist_eqb o (zbytes d)
+    | YExc, PFail _ => true
+    | _, _ => false
+    end
   end.
 
 Inductive ccase :=
